@@ -965,7 +965,7 @@ def expr_tokens(e) -> list[str]:
     if k in ('an', 'or'):
         return [k] + expr_tokens(e[1]) + expr_tokens(e[2])
     if k == 's':
-        test = ['n', e[3][1]] if e[3][0] == 'n' else [e[3][0]]
+        test = ['n', e[3][1]] if e[3][0] == 'n' else (['se', str(len(e[3][1]))] + list(e[3][1]) if e[3][0] == 'se' else [e[3][0]])
         return ['s'] + expr_tokens(e[1]) + [e[2]] + test + expr_tokens(e[4]) + expr_tokens(e[5])
     raise ValueError(e)
 
@@ -980,6 +980,8 @@ def name_xpath(n: str) -> str:
 def test_xpath(ax: str, t) -> str:
     if t[0] == 'n':
         return name_xpath(t[1])
+    if t[0] == 'se':
+        return f'schema-element({name_xpath(t[1][0])})'
     return {'*': '*', 'nd': 'node()'}[t[0]]
 
 
@@ -1048,8 +1050,9 @@ def strip_abbr(e):
 
 
 class PathGen:
-    def __init__(self, rng, elem_names: list[str], attr_names: list[str]):
+    def __init__(self, rng, elem_names: list[str], attr_names: list[str], globals_: list | None = None):
         self.rng = rng
+        self.globals = globals_ or []      # [[head, member, ...], ...] clark names of global declarations
         self.en = elem_names + [clark('nosuch')]
         self.an = attr_names + ['nosuch']
 
@@ -1058,6 +1061,8 @@ class PathGen:
         if ax == 'a':
             return ('*',) if r.random() < 0.4 else ('n', r.choice(self.an))
         k = r.random()
+        if self.globals and ax in ('c', 'd', 'ds', 'fs', 'ps', 'an') and r.random() < 0.08:
+            return ('se', tuple(r.choice(self.globals)))        # schema-element(N): N or a member of its group
         if k < 0.45:
             return ('n', r.choice(self.en))
         if k < 0.9:
@@ -1401,7 +1406,11 @@ def run_select(impl: Impl, path: str, with_schema: bool, dummy: bool):
         eidx, aidx, idx_of, _ = node_index_maps(root, nt)
         tok = impl.token(path, with_schema)
         out = []
-        for x in tok.select(ctx):
+        before = (ctx.item, ctx.axis)
+        items = list(tok.select(ctx))
+        if ctx.item is not before[0] or ctx.axis != before[1]:
+            return 'ERR:context-not-restored'
+        for x in items:
             if isinstance(x, DocumentNode):
                 continue
             if isinstance(x, AttributeNode):
@@ -1674,6 +1683,14 @@ def check_case(run: Run, case: dict, ans: str, impl: Impl) -> None:
             continue
         flags = [f for f in m.get('K', '').split(',') if f]
         with_s = run_select(impl, xp, True, dummy)
+        if 'schema-element(' in xp:
+            # needs the in-scope schema definitions: no schema-less counterpart; the Lean model and the
+            # Lean spec (name of the declaration or of a member of its substitution group) are the oracles
+            st.count('path:schema-element')
+            if with_s != m['M'] or with_s != m['S']:
+                dis(f'schema-element-selection:{k}', with_s, model=m['M'], spec=m['S'], tags=flags,
+                    site='_xpath2_operators.select__schema_element_kind_test', extra={'path': xp, 'root_as': 'element' if dummy else 'document'})
+            continue
         without = run_select(impl, xp, False, dummy)
         st.count('path:checked')
         st.count('path:root-as-element' if dummy else 'path:root-as-document')
@@ -1727,7 +1744,8 @@ def gen_case(rng, quick: bool) -> dict | None:
     root = LE.fromstring(to_xml(inst).encode())
     enames = sorted({e.tag for e in root.iter() if not callable(e.tag)})
     anames = sorted({n for e in root.iter() if not callable(e.tag) for n in e.attrib if not n.startswith('{')}) + ['a0', 'a1']
-    pg = PathGen(rng, enames, anames)
+    gl = [[clark(g['name'])] + [clark(m['name']) for m in sch.globals if m.get('subst_of') == g['name']] for g in sch.globals]
+    pg = PathGen(rng, enames, anames, gl)
     paths = []
     for _ in range(rng.randint(3, 6)):
         paths.append((rng.random() < 0.6, pg.path()))
